@@ -212,11 +212,15 @@ func (b *recBlock) Get(d digest.Digest, offsetBytes, sizeBytes int64, cb buffer.
 	e := b.a.env
 	e.blockGets = append(e.blockGets, blockGet{b.rec, e.s.Cur().ID, e.s.Steps})
 	return b.base.Get(d, offsetBytes, sizeBytes, func(valid bool) {
+		// A detection takes effect when the store's callback has returned:
+		// with atomics as scheduling points (S5) other operations may run
+		// between its invocation and the update of the to-be-released counter,
+		// and those overlap the detection.
+		cb(valid)
 		if !valid {
 			e.detections = append(e.detections, detection{b.rec, e.s.Steps})
 			e.c.Logf("integrity callback: block #%d invalid", b.rec.ID)
 		}
-		cb(valid)
 	})
 }
 
